@@ -144,6 +144,12 @@ def domain(desc, scope):
         alpha = desc.get('alphabet', 'ab')
         for n in range(1, min(scope, 3) + 1):
             out += [''.join(p) for p in itertools.product(alpha, repeat=n)]
+        if 'alphabet' not in desc:
+            # strings are sequences of code points: canonically equivalent
+            # but different spellings, a compatibility character, an astral
+            # character (the properties quantify over ALL strings)
+            out += ['\u00e9', 'e\u0301', '\u212b', '\u00c5', 'f',
+                    '\U0001f600']
         return out
     if k == 'val':
         return [None, 0, 1, 'a', True, 2.5][:scope + 2]
